@@ -166,6 +166,43 @@ def corpus_check(V, thorough, rnd):
     return n
 
 
+# hand scripts (lists of statements) outside the generators' shapes: the script's result is the concatenation of its statements parsed alone
+HAND = [
+    # a table declared again (IF NOT EXISTS, other letter case / quoting, after a DROP): every statement is reported, as when alone
+    ["CREATE TABLE u1 (a int);", "CREATE TABLE IF NOT EXISTS u1 (a int, b int);", "CREATE TABLE IF NOT EXISTS U1 (c int);", 'CREATE TABLE IF NOT EXISTS "u1" (d int);'],
+    ["DROP TABLE t9;", "CREATE TABLE IF NOT EXISTS t9 (a int, b varchar(5));", "CREATE SEQUENCE sq9 START 1;"],
+    ["CREATE TABLE s1.t9 (a int);", "CREATE TABLE IF NOT EXISTS s2.t9 (b int);", "CREATE TABLE IF NOT EXISTS s1.t9 (c int);", "CREATE TABLE s1.t9 (d int);"],
+    ["CREATE SEQUENCE sq1 START 1;", "CREATE SEQUENCE IF NOT EXISTS sq1 START 5;", "CREATE SCHEMA IF NOT EXISTS sc1;", "CREATE SCHEMA IF NOT EXISTS sc1;"],
+    # one statement with an unpaired quote character (an escaped quote), literals with separators in the statements after it
+    ["CREATE TABLE a1 (n varchar(20) DEFAULT 'user\\'s note', z int);", "CREATE TABLE b1 (id int, m varchar(5), PRIMARY KEY (id, m));",
+     "CREATE TABLE c1 (id int, k varchar(9) DEFAULT 'xy', j decimal(5,2));", "CREATE TABLE d1 (q int, r int);"],
+    ["INSERT INTO lg VALUES (1, 'user\\'s note');", "CREATE TABLE b2 (id int, m varchar(5), UNIQUE (id, m));", "CREATE TABLE c2 (id int, k varchar(9) COMMENT 'k1');"],
+    ["CREATE TABLE b3 (id int, m decimal(10,2));", "CREATE TABLE a3 (n varchar(20) COMMENT 'it\\'s');", "CREATE TABLE c3 (id int, k varchar(9) DEFAULT 'v', w numeric(4,1));"],
+]
+
+
+def hand_check(V):
+    tasks = []
+    for st in HAND:
+        tasks.append(("\n".join(st) + "\n", {}, {}))
+        tasks += [(s_ + "\n", {}, {}) for s_ in st]
+    outs, _ = C.parse_many(tasks)
+    k = n = 0
+    for st in HAND:
+        whole, solos = outs[k], outs[k + 1:k + 1 + len(st)]
+        k += 1 + len(st)
+        if whole[0] != "ok" or any(s_[0] != "ok" for s_ in solos):
+            V.mismatch({"what": "hand script", "ddl": "\n".join(st), "problem": "raised", "whole": whole[:3] if whole[0] != "ok" else "ok"}, paths=["hand_raised"])
+            continue
+        n += 1
+        cat = [e for s_ in solos for e in s_[1] if "comments" not in e]
+        got = [e for e in whole[1] if "comments" not in e]
+        if cat != got:
+            V.mismatch({"what": "hand script", "ddl": "\n".join(st), "problem": "script result is not the concatenation of its statements parsed alone",
+                        "paths": C.diff_paths(cat, got)[:6]}, paths=["hand_concat"])
+    return n
+
+
 def run(tier, seed):
     t0 = time.time()
     F.guard_on()
@@ -241,6 +278,7 @@ def run(tier, seed):
     cov["corpus_traces"] = {"scripts": len(traces), "lines": sum(len(t) for t in traces), "accepted_all_fields": nacc,
                             "rejected (model drift, not a verdict)": [{"script": corp[i]["text"][:200], "line": ln} for i, ln, _ in rejs[:5]]}
     ncorp = corpus_check(V, thorough, rnd)
+    cov["hand_scripts_compared_with_their_statements_parsed_alone"] = hand_check(V)
     cov["corpus_scripts_compared_with_their_statements_parsed_alone"] = ncorp
     # ---- the end-to-end composition (spec/System.tla): every script of <= 3 statements over 15 kinds, parse stage -> fold stage -> result
     from .. import sys_check as SY
